@@ -134,6 +134,28 @@ func cmdConcColl(o *Out, line string, f []string) {
 			}
 		}()
 	}
+	if (seed/6)%2 == 1 {
+		// two more goroutines that only set metadata, at the same time as each other and as everything else: the wrapper
+		// serialises them like every other mutating call (the race detector sees it when it does not)
+		for k := 0; k < 2; k++ {
+			obsWg.Add(1)
+			go func(k int) {
+				defer obsWg.Done()
+				for r := 0; r < 4000; r++ {
+					select {
+					case <-stopObs:
+						return
+					default:
+					}
+					_ = c.SetMetadata(birch.NewDocument(birch.EC.Int64("setter", int64(k)), birch.EC.Int64("round", int64(r))))
+					if r%16 == 0 {
+						runtime.Gosched()
+					}
+				}
+			}(k)
+		}
+		o.count("conc-coll-metadata-setters")
+	}
 	{
 		// a second observer that only reads (Info, Resolve): nothing it does invalidates anything the wrapper
 		// may keep between calls; in a third of the cases it is the only observer
